@@ -6,11 +6,14 @@ import glob, json, os, re, shutil
 ROOT = os.path.dirname(os.path.dirname(os.path.abspath(__file__)))
 OVERRIDES = json.load(open(os.path.join(ROOT, "tools", "seeded_overrides.json"))) if os.path.exists(os.path.join(ROOT, "tools", "seeded_overrides.json")) else {}
 kept, dropped = [], []
-for d in sorted(glob.glob("/tmp/mut/C*/m[0-9]*")) + sorted(glob.glob("/tmp/mut2/C*/m[0-9]*")) + sorted(glob.glob("/tmp/mut3/C*/m[0-9]*")) + sorted(glob.glob("/tmp/mut4/C*/m[0-9]*")):
+import sys
+# usage: seeded_import.py <base dir> <prefix>   e.g. /tmp/mut5 w5-   (wave 1: /tmp/mut "" ; later waves w2- .. w5-)
+BASE, PREFIX = (sys.argv[1].rstrip("/"), sys.argv[2]) if len(sys.argv) > 2 else ("/tmp/mut5", "w5-")
+for d in sorted(glob.glob(BASE + "/C*/m[0-9]*")):
     if not os.path.isdir(d):
         continue
-    prop, k = d.split("/")[3], d.split("/")[4]
-    name = "%s-%s" % (prop, k) if d.startswith("/tmp/mut/") else ("w2-%s-%s" if d.startswith("/tmp/mut2/") else "w3-%s-%s" if d.startswith("/tmp/mut3/") else "w4-%s-%s") % (prop, k)
+    prop, k = d.split("/")[-2], d.split("/")[-1]
+    name = "%s%s-%s" % (PREFIX, prop, k)
     need = [os.path.join(d, f) for f in ("patch.diff", "demo_test.go", "notes.md", "confirm.json")]
     if not all(os.path.exists(f) for f in need):
         dropped.append((name, "incomplete")); continue
